@@ -99,6 +99,9 @@ def run(chk):
     # ------------------------------------------------------------------ R9 ODVariable.__len__ per data type (a mapped variable's default length is len(od); shared with C04.R5)
     from . import c04 as _c04len
     _c04len.bit_length_by_type(chk, "R9")
+    # ------------------------------------------------------------------ R10 which variable an item access designates (shared clause)
+    from . import shared as _shl
+    _shl.pdo_lookup(chk, "R10")
     # ------------------------------------------------------------------ R8 instances are independent (shared clause)
     from . import shared as _shared
     _shared.isolation(chk, "R8", rels=['canopen/pdo/base.py', 'canopen/pdo/__init__.py'])
